@@ -140,6 +140,11 @@ class ImmutableDict(Mapping[Any, Any]):
 
         return self._hash
 
+    def __reduce__(self) -> tuple[Any, ...]:
+        """Pickle the content only: the hash is recomputed on load, as string hashes differ between processes."""
+
+        return (self.__class__, (self._d,))
+
     def __repr__(self) -> str:  # pragma: no cover
         """Representation."""
 
